@@ -36,7 +36,7 @@ func runC17(w *World, r *Report) {
 		}
 		return ""
 	}
-	r.rule("rmw-atomic", "a Hippocampus method that both reads and writes the shared cache holds the receiver's exclusive lock at every cache access", 12)
+	r.rule("rmw-atomic", "a Hippocampus method that both reads and writes the shared cache holds the receiver's exclusive lock at every cache access", 8)
 	nRMW := 0
 	for _, fn := range fns {
 		if fn.Parent() != nil || fn.Signature.Recv() == nil || !strings.Contains(fn.Signature.Recv().Type().String(), "Hippocampus") {
